@@ -58,6 +58,7 @@ func checkC15(c *Ctx, r *Report) {
 	checkECIParse(c, r)
 	checkECIUnknownIsFormatError(c, r)
 	checkECIEmission(c, r)
+	checkQRSegments(c, r) // Kanji mode (chosen under a Shift_JIS hint): the double-byte arithmetic of writer and reader are inverse
 	r.Note("not decided: charset guessing heuristics over payload statistics; per-charset transcoding (golang.org/x/text)")
 }
 
